@@ -306,3 +306,275 @@ Section Good.
       rewrite (filter_none newr A), (filter_none newr B), app_nil_r; [reflexivity| |]; intros r Hr; apply Nat.leb_gt; apply OA; apply in_or_app; tauto.
   Qed.
 End Good.
+
+(* ---- the item loops, once and for all ---- *)
+Lemma ditem_ind' (P : ditem -> Prop) : (forall d e ch, Forall P ch -> P (DI d e ch)) -> forall it, P it.
+Proof.
+  intros H. fix IH 1. intros [d e ch]. apply H. induction ch as [|x l IHl]; constructor; [apply IH|exact IHl].
+Qed.
+
+Section Seq.
+  Context {Wd : Type} (f : ditem -> Wd -> res * Wd).
+  Fixpoint seq_items (l : list ditem) (w : Wd) : res * Wd :=
+    match l with
+    | [] => (Ok [], w)
+    | x :: l' => match f x w with
+                 | (Ok _, w2) => seq_items l' w2
+                 | err => err
+                 end
+    end.
+End Seq.
+
+(* a relation that holds between two runs: R as long as both go on, E once both have stopped with the same error *)
+Definition Rel2 {A B} (R E : A -> B -> Prop) (x : res * A) (y : res * B) : Prop :=
+  match x, y with
+  | (Ok _, a), (Ok _, b) => R a b
+  | (Err e, a), (Err e', b) => e = e' /\ E a b
+  | _, _ => False
+  end.
+
+Lemma seq_rel {A B} (f : ditem -> A -> res * A) (g : ditem -> B -> res * B) (R E : A -> B -> Prop) l :
+  Forall (fun x => forall a b, R a b -> Rel2 R E (f x a) (g x b)) l ->
+  forall a b, R a b -> Rel2 R E (seq_items f l a) (seq_items g l b).
+Proof.
+  induction 1 as [|x l Hx Hl IH]; intros a b H; cbn [seq_items]; [exact H|].
+  specialize (Hx a b H). unfold Rel2 in Hx. destruct (f x a) as [[r|e] a'], (g x b) as [[r'|e'] b']; try contradiction.
+  - now apply IH.
+  - exact Hx.
+Qed.
+
+Lemma seq_inv {A} (f : ditem -> A -> res * A) (P : A -> Prop) l :
+  Forall (fun x => forall a, P a -> P (snd (f x a))) l -> forall a, P a -> P (snd (seq_items f l a)).
+Proof.
+  induction 1 as [|x l Hx Hl IH]; intros a H; cbn [seq_items]; [exact H|].
+  specialize (Hx a H). destruct (f x a) as [[r|e] a']; cbn [snd] in *; [now apply IH|exact Hx].
+Qed.
+
+Lemma from_dict_item_eq ti p d e ch w : from_dict_item ti p (DI d e ch) w =
+  match op_add w ti p d e None BNone with
+  | (Ok [n], w1) => seq_items (from_dict_item ti n) ch w1
+  | (Ok _, w1) => (Err EModel, w1)
+  | (Err x, w1) => (Err x, w1)
+  end.
+Proof. reflexivity. Qed.
+
+Lemma from_dict_items_eq ti p l : forall w, from_dict_items ti p l w = seq_items (from_dict_item ti p) l w.
+Proof. induction l as [|x l IH]; intros w; cbn [from_dict_items seq_items]; [reflexivity|]. destruct (from_dict_item ti p x w) as [[r|e] w2]; [apply IH|reflexivity]. Qed.
+
+Lemma h_from_dict_item_eq ti p d e ch w : h_from_dict_item ti p (DI d e ch) w =
+  match h_op_add w ti p d e None BNone with
+  | (Ok [n], w1) => match seq_items (h_from_dict_item ti n) ch w1 with
+                    | (Err x, w2) => (Err x, h_cleanup w2 ti n)
+                    | ok => ok
+                    end
+  | (Ok _, w1) => (Err EModel, w1)
+  | (Err x, w1) => (Err x, w1)
+  end.
+Proof. cbn [h_from_dict_item]. destruct (h_op_add w ti p d e None BNone) as [[[|n [|n2 r]]|x] w1]; try reflexivity. destruct ch; reflexivity. Qed.
+
+Lemma h_from_dict_items_eq ti p l : forall w, h_from_dict_items ti p l w = seq_items (h_from_dict_item ti p) l w.
+Proof. induction l as [|x l IH]; intros w; cbn [h_from_dict_items seq_items]; [reflexivity|]. destruct (h_from_dict_item ti p x w) as [[r|e] w2]; [apply IH|reflexivity]. Qed.
+
+(* ---- the same run on the Machine side, with the handlers of fix D48 spelled out ---- *)
+Definition v_cleanup (w : world) (ti n : nat) : world := snd (op_remove_children w ti n).
+
+Fixpoint v_item (ti p : nat) (it : ditem) (w : world) {struct it} : res * world :=
+  match it with
+  | DI d e ch =>
+      match op_add w ti p d e None BNone with
+      | (Ok [n], w1) => match seq_items (v_item ti n) ch w1 with
+                        | (Err x, w2) => (Err x, v_cleanup w2 ti n)
+                        | ok => ok
+                        end
+      | (Ok _, w1) => (Err EModel, w1)
+      | (Err x, w1) => (Err x, w1)
+      end
+  end.
+
+(* remove_children on an object that is not in the tree does nothing the representation sees *)
+Lemma Rep_dead_rc h t n : WF t -> Rep h t -> h_plive h n = false -> Rep (h_remove_children h n) t.
+Proof.
+  intros W R Hp. assert (Nz : n <> 0) by (intros ->; discriminate).
+  assert (Hc : hch h n = []).
+  { rewrite (rep_ch h t R). apply kids_none. intros r Hr E.
+    assert (X : h_plive h n = true); [|congruence]. apply (h_plive_path h t n W R), parent_path_live.
+    destruct (rows_par _ 0 r Hr) as [Y|Y]; [left; congruence|right; now rewrite <- E]. }
+  unfold h_remove_children, h_fuel. cbn [h_post]. rewrite Hc. cbn [flat_map fold_left]. rewrite (touch_root_id _ n Nz).
+  constructor; cbn [set_chl hreg hidx htyped hcalc hch hpar htr hinf hall]; try apply R.
+  intros p. destruct (Nat.eq_dec p n) as [->|Np]; [rewrite upd_eq, <- (rep_ch h t R); now symmetry|rewrite upd_neq by congruence; apply R].
+Qed.
+
+Lemma Forall2_upd_l {X Y} (R : X -> Y -> Prop) (f : X -> X) : forall l l' i,
+  Forall2 R l l' -> (forall x y, nth_error l i = Some x -> nth_error l' i = Some y -> R x y -> R (f x) y) ->
+  Forall2 R (upd_nth i f l) l'.
+Proof.
+  intros l l' i H. revert i. induction H as [|x y l l' Hxy H IH]; intros [|i] Hf; cbn [upd_nth]; constructor; auto.
+Qed.
+
+Lemma cleanup_rel hw w ti n : WFw w -> RepW hw w ->
+  WFw (v_cleanup w ti n) /\ RepW (h_cleanup hw ti n) (v_cleanup w ti n).
+Proof.
+  intros W RW. split; [now apply WFw_op_remove_children|]. unfold v_cleanup, h_cleanup.
+  assert (G := RepW_get hw w ti RW). assert (S1 := sim_op_remove_children hw w ti n W RW). unfold h_op_remove_children in S1.
+  destruct (h_get hw ti) as [h|] eqn:Gh.
+  - destruct (get_tree w ti) as [t|] eqn:Gt; [|contradiction].
+    destruct (h_plive h n) eqn:Hp; cbn [negb] in S1; [exact (proj2 S1)|].
+    assert (E : op_remove_children w ti n = (Err EModel, w)).
+    { unfold op_remove_children. rewrite Gt. destruct (parent_path n (forest_of t)) as [pq|] eqn:Gp; [|reflexivity].
+      assert (X : h_plive h n = true); [|congruence]. apply (h_plive_path h t n (WFw_tree w ti t W Gt) G). now exists pq. }
+    rewrite E. cbn [snd]. destruct RW as [E1 F]. constructor; [exact E1|]. unfold h_put. cbn [htrees].
+    apply Forall2_upd_l; [exact F|]. intros x y Hx Hy Rxy. unfold h_get in Gh. unfold get_tree in Gt.
+    assert (x = h) by congruence. assert (y = t) by congruence. subst x y.
+    apply Rep_dead_rc; auto. now apply (WFw_tree w ti t W Gt).
+  - exact (proj2 S1).
+Qed.
+
+(* ---- heap run against the spelled-out Machine run ---- *)
+Definition RW (hw : hworld) (w : world) : Prop := WFw w /\ RepW hw w.
+
+Lemma v_item_eq ti p d e ch w : v_item ti p (DI d e ch) w =
+  match op_add w ti p d e None BNone with
+  | (Ok [n], w1) => match seq_items (v_item ti n) ch w1 with
+                    | (Err x, w2) => (Err x, v_cleanup w2 ti n)
+                    | ok => ok
+                    end
+  | (Ok _, w1) => (Err EModel, w1)
+  | (Err x, w1) => (Err x, w1)
+  end.
+Proof. reflexivity. Qed.
+
+Lemma sim_item : forall it ti p hw w, RW hw w -> Rel2 RW RW (h_from_dict_item ti p it hw) (v_item ti p it w).
+Proof.
+  induction it as [d e ch IH] using ditem_ind'. intros ti p hw w [W R]. rewrite h_from_dict_item_eq, v_item_eq.
+  destruct (sim_op_add hw w ti p d e None BNone W R) as [E1 R1]. assert (W1 := WFw_op_add w ti p d e None BNone W).
+  destruct (h_op_add hw ti p d e None BNone) as [hr hw1], (op_add w ti p d e None BNone) as [mr w1]. cbn [fst snd] in *. subst mr.
+  destruct hr as [[|n [|n2 r]]|x]; try (split; [reflexivity|now split]).
+  assert (F : Forall (fun x => forall a b, RW a b -> Rel2 RW RW (h_from_dict_item ti n x a) (v_item ti n x b)) ch).
+  { revert IH. apply Forall_impl. intros x Hx. exact (Hx ti n). }
+  assert (X := seq_rel _ _ RW RW ch F hw1 w1 (conj W1 R1)). unfold Rel2 in X.
+  destruct (seq_items (h_from_dict_item ti n) ch hw1) as [[r|x] a], (seq_items (v_item ti n) ch w1) as [[r'|x'] b]; try contradiction; [exact X|].
+  destruct X as [-> [Wb Rb]]. split; [reflexivity|]. now apply cleanup_rel.
+Qed.
+
+Lemma next_cleanup w ti n : next (v_cleanup w ti n) = next w.
+Proof.
+  unfold v_cleanup, op_remove_children. destruct (get_tree w ti) as [t|]; [|reflexivity].
+  destruct (parent_path n (forest_of t)) as [pq|]; [|reflexivity]. destruct (get_ch pq (forest_of t)) as [ch|]; [|reflexivity].
+  destruct (unregister_all (pre_f ch) (reg t) (idx t)). reflexivity.
+Qed.
+
+(* the spelled-out run and the Machine's run: the same until a refusal, then the same error and allocator *)
+Lemma vm_item : forall it ti p w, Rel2 eq (fun a b => next a = next b) (v_item ti p it w) (from_dict_item ti p it w).
+Proof.
+  induction it as [d e ch IH] using ditem_ind'. intros ti p w. rewrite from_dict_item_eq, v_item_eq.
+  destruct (op_add w ti p d e None BNone) as [[[|n [|n2 r]]|x] w1]; try (split; reflexivity).
+  assert (F : Forall (fun x => forall a b : world, a = b -> Rel2 eq (fun a b => next a = next b) (v_item ti n x a) (from_dict_item ti n x b)) ch).
+  { revert IH. apply Forall_impl. intros x Hx a b <-. exact (Hx ti n a). }
+  assert (X := seq_rel _ _ eq (fun a b => next a = next b) ch F w1 w1 eq_refl). unfold Rel2 in X.
+  destruct (seq_items (v_item ti n) ch w1) as [[r|x] a], (seq_items (from_dict_item ti n) ch w1) as [[r'|x'] b]; try contradiction; [exact X|].
+  destruct X as [-> X]. split; [reflexivity|]. now rewrite next_cleanup.
+Qed.
+
+Lemma op_add_ok_next w ti p d e k b n w1 : op_add w ti p d e k b = (Ok [n], w1) -> n = next w.
+Proof.
+  unfold op_add. destruct (get_tree w ti) as [t|]; [|discriminate]. destruct (parent_path p (forest_of t)) as [pq|]; [|discriminate].
+  destruct (get_ch pq (forest_of t)) as [ch|]; [|discriminate]. destruct (negb (before_ok (norm_before b) ch)); [discriminate|].
+  destruct (match e with Some e0 => Some e0 | None => calc_id (calc t) d end) as [id|]; [|discriminate].
+  destruct (collides t p id); [discriminate|]. intros H. now injection H.
+Qed.
+
+(* ---- the half-built world ---- *)
+Section GoodW.
+  Variables (a b : list tstate) (N0 p0 : nat) (t0 : tstate).
+  Hypothesis N0pos : 0 < N0.
+  Hypothesis W0 : WF t0.
+  Hypothesis Lt0 : forall m, In m (ids (forest_of t0)) -> m < N0.
+  Let ti := length a.
+
+  Definition GoodW (w : world) : Prop :=
+    WFw w /\ N0 <= next w /\ exists tx, trees w = a ++ tx :: b /\ GoodT N0 p0 t0 tx.
+  Definition Allowed (p : nat) : Prop := p = p0 \/ N0 <= p.
+
+  Lemma GoodW_get w tx : trees w = a ++ tx :: b -> get_tree w ti = Some tx.
+  Proof. intros E. unfold get_tree. rewrite E. apply nth_error_app_len. Qed.
+
+  Lemma GoodW_add w p d e : GoodW w -> Allowed p -> GoodW (snd (op_add w ti p d e None BNone)).
+  Proof.
+    intros (W & L & tx & Et & G) Hp. assert (Gt := GoodW_get w tx Et). assert (W1 := WFw_op_add w ti p d e None BNone W).
+    assert (Same : GoodW w) by (split; [assumption|split; [assumption|now exists tx]]).
+    assert (Bump : WFw (bump w 1) -> GoodW (bump w 1)).
+    { intros Wb. split; [assumption|split; [cbn; lia|now exists tx]]. }
+    unfold op_add in *. rewrite Gt in *. destruct (parent_path p (forest_of tx)) as [pq|] eqn:Gp; [|exact Same].
+    destruct (get_ch pq (forest_of tx)) as [ch|] eqn:Gc; [|exact Same]. destruct (negb (before_ok (norm_before BNone) ch)); [exact Same|].
+    destruct (match e with Some e0 => Some e0 | None => calc_id (calc tx) d end) as [id|]; [|now apply Bump].
+    destruct (collides tx p id); [now apply Bump|]. cbn [snd] in *.
+    set (t' := set_all tx _ _ _) in *.
+    assert (Et' : trees (put_tree (bump w 1) ti t') = a ++ t' :: b).
+    { unfold put_tree, bump. cbn [trees]. rewrite Et. apply upd_nth_split. }
+    split; [assumption|]. split; [cbn; lia|]. exists t'. split; [exact Et'|].
+    assert (Wt' : WF t').
+    { assert (F := ww_trees _ W1). rewrite Et' in F. now apply Forall_elt in F. }
+    assert (Lt : forall m, In m (ids (forest_of tx)) -> m < next w) by (intros m; now apply (WFw_tree_lt w ti tx)).
+    apply (GoodT_add N0 p0 t0 tx p pq ch (next w) (mk_info d id (default_kind tx None) []) (norm_before BNone) t' G Gp Gc L); auto.
+    - intros Y. apply Lt in Y. lia.
+    - destruct Hp as [Hp|Hp]; [now left|right]. split; [assumption|].
+      destruct (proj1 (parent_path_live p (forest_of tx)) (ex_intro _ pq Gp)) as [X|X]; [lia|now apply Lt].
+  Qed.
+
+  Lemma rc_unfold w tx n : WFw w -> trees w = a ++ tx :: b ->
+    (remove_kids tx n = None /\ v_cleanup w ti n = w) \/
+    (exists t', remove_kids tx n = Some t' /\ v_cleanup w ti n = W (a ++ t' :: b) (next w)).
+  Proof.
+    intros W Et. unfold v_cleanup, op_remove_children, remove_kids. rewrite (GoodW_get w tx Et).
+    destruct (parent_path n (forest_of tx)) as [pq|]; [|now left]. destruct (get_ch pq (forest_of tx)) as [ch|]; [|now left].
+    destruct (unregister_all (pre_f ch) (reg tx) (idx tx)) as [r' ix']. right. eexists. split; [reflexivity|].
+    cbn [snd]. unfold put_tree, ti. cbn [trees]. rewrite Et, upd_nth_split. reflexivity.
+  Qed.
+
+  Lemma GoodW_rc w n : GoodW w -> N0 <= n -> GoodW (v_cleanup w ti n).
+  Proof.
+    intros (W & L & tx & Et & G) Hn. assert (W1 := WFw_op_remove_children w ti n W). fold (v_cleanup w ti n) in W1.
+    destruct (rc_unfold w tx n W Et) as [[_ E]|(t' & E1 & E)]; rewrite E in *.
+    - split; [assumption|split; [assumption|now exists tx]].
+    - split; [assumption|split; [assumption|]]. exists t'. split; [reflexivity|]. now apply (GoodT_rc N0 p0 t0 N0pos Lt0 tx n).
+  Qed.
+
+  Lemma good_item : forall it p w, GoodW w -> Allowed p -> GoodW (snd (v_item ti p it w)).
+  Proof.
+    induction it as [d e ch IH] using ditem_ind'. intros p w G Hp. rewrite v_item_eq.
+    assert (G1 := GoodW_add w p d e G Hp). assert (Nx := op_add_ok_next w ti p d e None BNone).
+    destruct (op_add w ti p d e None BNone) as [[[|n [|n2 r]]|x] w1]; cbn [snd] in *; try exact G1.
+    assert (Hn : N0 <= n) by (rewrite (Nx n w1 eq_refl); apply G).
+    assert (F : Forall (fun x => forall a0, GoodW a0 -> GoodW (snd (v_item ti n x a0))) ch).
+    { revert IH. apply Forall_impl. intros x Hx a0 Ha. apply Hx; [assumption|now right]. }
+    assert (X := seq_inv _ GoodW ch F w1 G1).
+    destruct (seq_items (v_item ti n) ch w1) as [[r|x] w2]; cbn [snd] in *; [exact X|]. now apply GoodW_rc.
+  Qed.
+
+  Lemma good_items l p w : GoodW w -> Allowed p -> GoodW (snd (seq_items (v_item ti p) l w)).
+  Proof.
+    intros G Hp. apply (seq_inv _ GoodW); [|assumption]. apply Forall_forall. intros x _ a0 Ha. now apply good_item.
+  Qed.
+
+  (* the handler of the outermost level gives back the world as it was (but for the allocator) *)
+  Lemma good_restore w : GoodW w -> (exists pq, parent_path p0 (forest_of t0) = Some pq /\ get_ch pq (forest_of t0) = Some []) ->
+    trees (v_cleanup w ti p0) = a ++ t0 :: b.
+  Proof.
+    intros (W & L & tx & Et & G) (pq0 & Gp0 & Gc0).
+    assert (NoKids : forall r, In r (rows 0 (forest_of t0)) -> r_par r <> p0).
+    { destruct (ctx_kids pq0 (forest_of t0) 0 [] (wf_nodup t0 W0) (wf_pos t0 W0) Gc0) as (A & B & E1 & _ & E3 & _).
+      rewrite (parent_path_owner p0 _ pq0 [] Gp0 Gc0) in *. cbn [flat_map app] in E1. rewrite E1. exact E3. }
+    destruct (rc_unfold w tx p0 W Et) as [[E1 _]|(t' & E1 & E)].
+    - exfalso. (* p0 is still a parent in the half-built tree *)
+      unfold remove_kids in E1.
+      assert (Lv : p0 = 0 \/ In p0 (ids (forest_of tx))).
+      { destruct (proj1 (parent_path_live p0 (forest_of t0)) (ex_intro _ pq0 Gp0)) as [X|X]; [now left|right].
+        rewrite <- (rows_ids _ 0) in X. apply in_map_iff in X. destruct X as (r & Er & Hr).
+        rewrite <- (g_rows _ _ _ tx G) in Hr. apply filter_In in Hr. rewrite <- Er. apply (rows_id_in _ 0). apply Hr. }
+      destruct (proj2 (parent_path_live p0 (forest_of tx)) Lv) as (pq & Gp). rewrite Gp in E1.
+      destruct (get_ch pq (forest_of tx)) as [ch|] eqn:Gc.
+      + destruct (unregister_all (pre_f ch) (reg tx) (idx tx)); discriminate.
+      + destruct (parent_path_get p0 (forest_of tx) pq Gp) as (ch & Gc'). congruence.
+    - rewrite E. cbn [trees]. f_equal. f_equal. now apply (GoodT_restore N0 p0 t0 N0pos W0 Lt0 tx t' G NoKids).
+  Qed.
+End GoodW.
